@@ -101,6 +101,10 @@ class WebBrowser(Application, discriminator="web-browser"):
         # reset latest response
         self.latest_response = HttpResponsePacket(status_code=HttpStatusCode.NOT_FOUND)
 
+        if not url:
+            self.sys_log.warning(f"{self.name}: No URL given and no target_url configured")
+            return False
+
         try:
             parsed_url = urlparse(url)
         except Exception:
